@@ -4,7 +4,7 @@
     safety of the object code (ASan / TSan runs of the same harness) and the sorting result itself (checked on every run
     by the harness: sorted, permutation of the string objects, exact LCPs). *)
 From Coq Require Import List Arith Sorting.Sorted Sorting.Permutation.
-From TLXV Require Import Common.Order C04.Jobs C04.JobsProofs C04.SampleSort C04.PWork.
+From TLXV Require Import Common.Order C04.Jobs C04.JobsProofs C04.SampleSort C04.PWork C04.Recursion.
 Import ListNotations.
 
 (** For every event sequence the code can produce -- any number of worker threads, any interleaving, any recursion
@@ -69,3 +69,19 @@ Theorem C04_phase_counter_exactly_once : forall k n s, 1 <= k -> prun n (pinit k
   n <= k /\ started s = (if n =? k then 1 else 0).
 Proof. exact pwork_exactly_once_after_all. Qed.
 Print Assumptions C04_phase_counter_exactly_once.
+
+(** The WHOLE recursion of the sample sort (PS5BigSortStep::distribute_finished, PS5SmallsortJob::sort_sample_sort and
+    sample_sort_free_work), for ARBITRARY sorted splitters at every step, arbitrary thresholds and arbitrary correct
+    small sorters.  [Sorts w depth l out] (C04/Recursion.v) describes every execution: either a small sorter returns
+    some sorted permutation, or a step classifies by the w-byte key at [depth], leaves the equal bucket of a splitter
+    whose key contains the string terminator as it stands, sorts the other equal buckets recursively at depth + w
+    and the bucket between two adjacent splitters recursively at depth + d for any d up to the number of equal
+    leading bytes of the two splitter keys (0 for the first and the last bucket), and concatenates.  Whatever the
+    execution, the result is a sorted permutation of the input (NUL-free strings sharing their first [depth] bytes;
+    key width at least one byte). *)
+Theorem C04_sample_sort_recursion_correct :
+  forall (w depth : nat) (common : str) (l out : list str), 1 <= w ->
+  Forall (in_scope depth common) l -> Sorts w depth l out ->
+  Sorted (sorted_rel lex_ltb) out /\ Permutation l out.
+Proof. exact ps5_recursion_correct. Qed.
+Print Assumptions C04_sample_sort_recursion_correct.
